@@ -368,8 +368,21 @@ LEMMAS = ["invariant_established_by_constructor", "invariant_preserved", "no_poi
           "hint.distribution", "hint.div_mod_definition"]
 
 
+def models_ob():
+    def run(seed):
+        from contracts import models
+        bad, cnt = models.run(seed)
+        bad2, cnt2 = models.dependency_contracts(seed)
+        bad += bad2
+        if bad:
+            return dict(status="error", bounded=True, detail="Engine A trusted base disagrees with real JAX: " + bad[0])
+        return dict(status="discharged", backend="native(bounded)", bounded=True,
+                    sample=f"{cnt} model instances and {cnt2} dependency-contract samples agree with real JAX")
+    return FnObligation("C09/bounded/engineA_models_and_assumed_contracts_agree_with_jax", run, [])
+
+
 def obligations(tier):
-    obs = []
+    obs = [models_ob()]
     for which, rars in CONSUMERS:
         for rar in rars:
             for cl in CLAUSES:
